@@ -76,6 +76,7 @@ func main() {
 	defer m.Close()
 	c := newCtx(prop, *tier, *seed, m)
 	fn(c)
+	profileReport()
 	// a broken correspondence with no direct violation: search harder with the
 	// implementation-side oracles only before reporting
 	hasCorr, hasOracle := false, false
